@@ -127,7 +127,8 @@ def splice_fn(text, item, key):
     # loops
     loops = item.get('loops') or {}
     loop_body_open = {}
-    if loops or any(a.startswith('@loop') for a, _ in item.get('proofs') or []):
+    loop_body_close = {}
+    if loops or any(a.startswith('@loop') or a.startswith('@afterloop') for a, _ in item.get('proofs') or []):
         idx = 0
         j = body + 1
         while j < body_close:
@@ -145,6 +146,7 @@ def splice_fn(text, item, key):
                 if idx in loops:
                     inserts.append((toks[k][2], toks[k][2], '\n' + loops[idx].strip('\n') + '\n'))
                 loop_body_open[idx] = toks[k][3]
+                loop_body_close[idx] = toks[match_close(toks, k)][3]
                 idx += 1
             j += 1
         missing = [i for i in loops if i >= idx]
@@ -154,6 +156,13 @@ def splice_fn(text, item, key):
     for anchor, ptxt in item.get('proofs') or []:
         if anchor == '@entry':
             p = toks[body][3]
+            inserts.append((p, p, '\n' + ptxt + '\n'))
+            continue
+        if anchor.startswith('@afterloop'):
+            k = int(anchor[10:])
+            if k not in loop_body_close:
+                raise LostAnchor('%s: proof anchor %s: loop not found' % (key, anchor))
+            p = loop_body_close[k]
             inserts.append((p, p, '\n' + ptxt + '\n'))
             continue
         if anchor.startswith('@loop'):
